@@ -11,7 +11,7 @@ from __future__ import annotations
 import ast
 import copy
 from dataclasses import dataclass, field
-from typing import Callable, Dict, List, Optional, Tuple
+from typing import Set, Callable, Dict, List, Optional, Tuple
 
 from .model import AnalysisError, FuncInfo, norm
 
@@ -182,8 +182,12 @@ class Interp:
                  catches: Optional[Callable[[str, str], bool]] = None,
                  is_effect: Optional[Callable[[ast.Call], bool]] = None,
                  init_env: Optional[Dict[str, ast.expr]] = None,
-                 max_paths: int = 512):
+                 max_paths: int = 512,
+                 implicit_raises: Optional[Set[str]] = None):
         self.fi = fi
+        # exception types that the statements of a try body may raise implicitly (subscripts, conversions): every handler
+        # catching one of them is also explored from the state at the start of the try statement
+        self.implicit_raises = implicit_raises or set()
         self.atom = atom
         self.raises = raises or (lambda c: None)
         self.catches = catches or (lambda handler, exc: handler == exc)
@@ -376,8 +380,19 @@ class Interp:
                     self._bind(item.optional_vars, subst(item.context_expr, state.env), state)
             return self.block(st.body, [state])
         if isinstance(st, ast.Try):
+            pre = state.fork() if self.implicit_raises else None
             flows = self.block(st.body, [state])
             out = []
+            if pre is not None:
+                for h in st.handlers:
+                    names = _handler_names(h)
+                    hit = [n for n in names if n in self.implicit_raises or (n in ("", "Exception", "BaseException"))]
+                    if hit:
+                        hs = pre.fork()
+                        hs.trace.append(f"L{h.lineno}: except {'/'.join(names)} (implicit)")
+                        if h.name:
+                            hs.env[h.name] = ast.Name(id=f"<exc:{hit[0]}>", ctx=ast.Load())
+                        out += self.block(h.body, [hs])
             for f in flows:
                 if f.kind == "raise":
                     handled = False
